@@ -41,7 +41,7 @@ def sel_term(r):
 
 
 def tip(t):
-    return "(Build_tip %d %d %d)" % tuple(t)
+    return "(Build_tip %d %d)" % tuple(t)
 
 
 def ogi(x):
@@ -50,29 +50,22 @@ def ogi(x):
 
 def gen_term(r):
     evs = []
-    syncing = False
+    cur = list(r["t0"])
     for e in r["evs"]:
         op = e["op"]
         if op == "forge":
-            if syncing:
-                evs.append("(GForgeBlocked %s)" % cbool(e["forged"]))
-            else:
-                h = e["hdr"]
-                evs.append("(GForge %s %d %s (Build_bh %d %d %d %d) %s %s)" % (
-                    cbool(e.get("lost", False)), e.get("after", 0), cbool(e["forged"] and not e.get("panic")),
-                    h[0], GEN, h[2], h[1], ogi(e.get("athand")), ogi(e.get("stored"))))
+            h = e["hdr"]
+            forged = e["forged"] and not e.get("panic")
+            evs.append("(GForge %s %s (Build_bh %d %d %d %d) %s %s)" % (
+                cbool(e.get("lost", False)), cbool(forged), h[0], GEN, h[2], h[1], ogi(e.get("athand")), ogi(e.get("stored"))))
+            if forged and not e.get("lost") and not e.get("drop"):
+                cur = [e.get("after", 0), cur[1] + 1]
+                evs.append("(GTip %s)" % tip(cur))
         elif op == "tip":
-            evs.append("(GTip %s)" % tip(e["t"]))
-        elif op == "delete":
-            evs.append("(GDelete %s)" % tip(e["t"]))
-        elif op == "apply":
-            evs.append("(GApply %s)" % tip(e["t"]))
-        elif op == "begin":
-            syncing = True
-            evs.append("GBegin")
-        elif op == "end":
-            syncing = False
-            evs.append("GEnd")
+            cur = list(e["t"])
+            evs.append("(GTip %s)" % tip(cur))
+        elif op == "sync":
+            evs.append("(GSync %s)" % cbool(e.get("on", False)))
         elif op == "restart":
             evs.append("GRestart")
     return "(%d, %s, [%s])" % (GEN, tip(r["t0"]), "; ".join(evs))
@@ -95,6 +88,20 @@ def evaluate(ck, recs):
     sel = [r for r in recs if r["k"] == "sel"]
     gen = [r for r in recs if r["k"] == "gen"]
     acc = [r for r in recs if r["k"] == "acc"]
+    for r in [x for x in recs if x["k"] == "dbl"]:
+        ck.count()
+        ck.nontrivial(("dbl", r["mode"]))
+        code = (ck.coq_eval(IMPORTS, "bool * bool * bool", "check_dbl", ["(%s, %s, %s)" % (cbool(r["forged1"]), cbool(r["forged2"]), cbool(r["contra"]))], tag="dbl_" + r["mode"]) or [3])[0]
+        if r.get("panic") or code >= 2:
+            f = dict(kind="input", key="c15:dbl:%s" % r["mode"],
+                     what="generator signed two contradicting headers (or did not forge at all) when %s: %s" % (
+                         {"busy": "the handed-over block was not processed before the next tick",
+                          "lower": "a failed block sync left a lower tip"}[r["mode"]], json.dumps(r)), case=r)
+            f["spec_violated"] = True
+            f["theorem_or_correspondence"] = "real forge() on a real Executer vs C15_never_self_contradicting"
+            ck.failures.append(f)
+        elif code == 1:
+            ck.fail_case("c15:dbl:model", "second forge was not refused although the model refuses it: " + json.dumps(r), r)
     rs = ck.coq_eval(IMPORTS, "sel_case", "check_sel", [sel_term(r) for r in sel], shard=120, tag="sel")
     rg = ck.coq_eval(IMPORTS, "gen_case", "check_gen", [gen_term(r) for r in gen], shard=60, tag="gen")
     if rs is not None:
@@ -111,24 +118,32 @@ def evaluate(ck, recs):
             ck.count()
             forged = [e for e in r["evs"] if e["op"] == "forge" and e["forged"]]
             if len(forged) >= 2:
-                ck.nontrivial(("gen", tuple(r["t0"]), tuple((e["op"], tuple(e.get("t", [])), e.get("lost", False)) for e in r["evs"])))
+                ck.nontrivial(("gen", tuple(r["t0"]), tuple((e["op"], tuple(e.get("t", [])), e.get("lost", False), e.get("drop", False)) for e in r["evs"])))
             if code != 0:
                 add_failure(ck, "gen", code,
                             "generator signed contradicting headers / maxHeightGenerated below an earlier own height / info not "
                             "persisted before hand-off",
                             "forge / generator DB differs from the GenInfo model", r)
+    rounds = []
     for r in acc:
         for i in range(len(r["forged"])):
+            lim = r.get("limit") or 15360
+            get = lambda k, d: (r.get(k) or [])[i] if i < len(r.get(k) or []) else d
+            rounds.append((r, i, "(%s, %s, %s, %s, %d, %d, %d)" % (cbool(r["forged"][i]), cbool(r["accepted"][i]), cbool(r["tipis"][i]),
+                                                                  cbool(bool(r.get("panic"))), get("payload", 0), lim, get("badin", 0))))
+    ra = ck.coq_eval(IMPORTS, "bool * bool * bool * bool * N * N * N", "check_accept", [t for _, _, t in rounds], shard=200, tag="acc")
+    if ra is not None:
+        for (r, i, _), code in zip(rounds, ra):
             ck.count()
-            ck.nontrivial(("acc", r["nval"], r["pre"], r["events"], i))
-            ok = r["forged"][i] and r["accepted"][i] and r["tipis"][i] and not r.get("panic")
-            if not ok:
+            ntx = (r.get("ntx") or [0])[min(i, len(r.get("ntx") or [0]) - 1)] if r.get("ntx") else 0
+            aggh = (r.get("aggh") or [0])[min(i, len(r.get("aggh") or [0]) - 1)] if r.get("aggh") else 0
+            ck.nontrivial(("acc", r["nval"], r["pre"], r["events"], i, ntx > 0, aggh > 0, bool(r.get("badevery")), bool(r.get("limit"))))
+            if code != 0:
                 f = dict(kind="input", key="c15:acc:spec",
-                         what="block generated by forge() was not accepted by the same node's Executer (forged=%s accepted=%s tip=%s "
-                              "errs=%s panic=%s) on %s" % (r["forged"][i], r["accepted"][i], r["tipis"][i], r.get("errs"),
-                                                           r.get("panic"), json.dumps(r)[:600]), case=r)
+                         what="block generated by forge() was not accepted by the same node's Executer, or exceeds the size limit, or "
+                              "contains a transaction that failed verification: " + json.dumps(r)[:900], case=r)
                 f["spec_violated"] = True
-                f["theorem_or_correspondence"] = "generated block vs consensus.Executer.process"
+                f["theorem_or_correspondence"] = "Corr.C15.check_accept: generated block vs consensus.Executer.process"
                 ck.failures.append(f)
 
 
@@ -158,9 +173,9 @@ def run(ck):
             return
         recs += r0
     if ck.tier == "quick":
-        args = ["-sel", "900", "-gen", "150", "-acc", "3"]
+        args = ["-sel", "900", "-gen", "150", "-acc", "6"]
     else:
-        args = ["-sel", "20000", "-gen", "3000", "-acc", "25"]
+        args = ["-sel", "20000", "-gen", "3000", "-acc", "60"]
     r1 = ck.run_harness(binp, args, timeout=1700)
     if r1 is None:
         return
